@@ -48,8 +48,19 @@ func ZZNoInfraError(shape int) {
 		seqShape = true
 		req.Puts = append(req.Puts, &proto.PutRequest{Key: "p", Value: []byte("v"), PartitionKey: &pk, SequenceKeyDelta: []uint64{1, 1}})
 	}
+	rangeShape := false
+	if shape == 6 {
+		// an ordinary-looking user range whose bounds straddle the internal key space in slash order:
+		// "a" (no slash) < "__oxia/..." < "b/"
+		rangeShape = true
+		d.notificationsEnabled = true
+		_, _ = d.ProcessWrite(&proto.WriteRequest{Puts: []*proto.PutRequest{{Key: "o", Value: []byte("v")}}}, 6, 999, NoOpCallback)
+		req.DeleteRanges = append(req.DeleteRanges, &proto.DeleteRangeRequest{StartInclusive: "a", EndExclusive: "b/"})
+	}
 	res, err := d.ProcessWrite(req, 7, 1000, NoOpCallback)
-	if vKnown("KF-C13-sequence-request-errors", seqShape && err != nil) {
+	if vKnown("KF-C13-range-over-internal-keys", rangeShape && err != nil) {
+		vAssert("per-operation-status-not-error", err == nil)
+	} else if vKnown("KF-C13-sequence-request-errors", seqShape && err != nil) {
 		vAssert("per-operation-status-not-error", err == nil)
 	} else {
 		vAssert("per-operation-status-not-error", err == nil)
